@@ -17,3 +17,27 @@ chk("C07", "exploration", "E4",
     "Every ordered pair of gene lists over innovations {1..k} (k=6 quick, 8 thorough; empty list included) under 3 mutation-number patterns, 6 coefficient rows and both methods is evaluated on the real compatibility code and compared with E/D/W computed by set arithmetic; symmetry, zero self-distance, no NaN, non-negativity and linear==fast are asserted on each. The space named in the evidence rule is enumerated completely.",
     "Innovation alphabet bounded by k; mutation numbers and coefficients come from small menus; trusts go build -overlay and the 40-line reference.",
     "DESIGN.md section 3 C07")
+
+chk("C12", "exploration", "E4",
+    "bounded-exhaustive enumeration of all feed-forward DAGs on a small node set, every solver entry point vs a topological-order reference",
+    "Every feed-forward edge set over {bias, input(s), <=2..3 hidden, output(s)} in which every neuron is reachable from a sensor is built as a real Network; under weight rotations, every registered activation type (uniform and mixed) and every input vector over a 4-value alphabet, Network.ForwardSteps(D), ForwardSteps(D+2), RecursiveSteps and the fast solver's ForwardSteps(D), ForwardSteps(D+2), RecursiveSteps and Relax are compared (1e-11 relative) with a Kahn-order evaluation that uses the library's registered activation functions. The space named in the evidence rule is enumerated completely.",
+    "Node sets bounded (quick 5 nodes, thorough up to 7); weights/inputs from non-saturating menus; the activation functions themselves are trusted here (C18 checks them).",
+    "DESIGN.md section 3 C12")
+
+chk("C14", "exploration", "E4",
+    "bounded-exhaustive enumeration of all digraphs on k neurons + 1 sensor, all caps and all pairs of consecutive depth queries, vs DP longest path",
+    "ALL digraphs (every neuron->neuron edge including self-loops, every sensor->neuron edge) over 2 hidden + 1 output (quick) and 3 hidden + 1 output / 2 hidden + 2 outputs (thorough) are built as real networks; for each, every cap 0..n+1 and every ordered pair of consecutive queries is executed: DAG depth == DP longest path ending in an output, cyclic graphs terminate within [0, #nodes], cap rule, second query == same query on a fresh network, no visited mark left. Hangs and crashes of a worker are turned into verdicts.",
+    "Sensors are interchangeable for depth so one sensor is used; modular networks excluded as in the statement; hang guard is generous wall-clock, only used to convert non-termination into a verdict.",
+    "DESIGN.md section 3 C14")
+
+chk("C18", "exploration", "E4",
+    "exhaustive sweep of float32-representable inputs (all 2^32 in thorough), all 256 type codes and all near-miss names vs closed forms",
+    "Every registered scalar activation is evaluated on every float32 bit pattern with 16 low bits clear (quick) / every finite float32 bit pattern (thorough) widened to float64, plus breakpoint neighbourhoods, -0.0 and powers of ten up to 1e300, and compared with closed forms written from the documentation (4 ulps), finiteness, documented range and monotonicity between numeric neighbours; module activations on all vectors of length 1..3 over an 8-value alphabet; all 256 type codes and every registered name with every 1-character deletion/substitution for the lookup bijection and error clauses.",
+    "float64 inputs that are not float32-representable are covered only by the structured extras; closed forms are my reading of the doc comments.",
+    "DESIGN.md section 3 C18")
+
+chk("C19", "exploration", "E4",
+    "bounded-exhaustive enumeration of all series up to length L over a 7-value alphabet and all small experiment shapes vs textbook definitions",
+    "All sequences of length 0..5 (quick) / 0..7 (thorough) over {-2.5,0,1,1,3,1e10,1e-10} - every order and tie pattern of every multiset - are passed to each Floats accessor and compared with textbook definitions computed on a sorted copy (empirical quantile at ceil(p*n)); a panic is a violation; NaN/0 on the empty series. All experiments with 0..2(3) trials of 0..3 generations over a 6-record menu: every aggregate accessor is recomputed directly from the recorded generations.",
+    "Alphabet and length bounded; gonum is trusted for nothing (reference is independent).",
+    "DESIGN.md section 3 C19")
